@@ -321,6 +321,58 @@ def run_script(binary, steps, trace_path=None, drain_ms=20, prefix=None, cwd=Non
                 s.p.stdout.close()
             except OSError:
                 pass
+        elif do == "game":
+            # a GUI-style game: position <start> moves <all moves so far> / go / the engine's move / the opponent's reply / ...
+            # The opponent is either the reply the engine itself predicted (second PV move of its last info line) or the
+            # move of a second, unrecorded process of the same binary asked with a zero allowance.
+            opp = None
+            moves = list(st.get("premoves") or [])
+            for ply in range(st.get("plies", 4)):
+                if not s.alive:
+                    break
+                cmd = st["start"] + (" moves " + " ".join(moves) if moves else "")
+                extra = {}
+                pl = position_payload(cmd)
+                if pl:
+                    extra["position"] = pl
+                s.send(cmd, extra)
+                golines = st["go"] if isinstance(st["go"], list) else [st["go"]]
+                gl = golines[ply % len(golines)]
+                gx = dict((st.get("go_extra") or {}).get(gl) or {}, go=True)
+                if st.get("probe_prefix"):
+                    gx["probe"] = "%s-%d" % (st["probe_prefix"], ply)
+                    gx["timed"] = bool(gx.get("slice_w") or gx.get("slice_b"))
+                n0 = len(s.events)
+                ev = s.wait_for("bestmove", st.get("wait_ms", 6000)) if s.send(gl, gx) and s.alive else None
+                if ev is None:
+                    break
+                s.drain(drain_ms)
+                if not MOVE_RE.match(ev.get("move", "")):
+                    break
+                moves.append(ev["move"])
+                reply = None
+                if st.get("opp", "pv") == "pv" and ply % 2 == 0:
+                    infos = [e for e in s.events[n0:] if e.get("k") == "info" and e["info"].get("ok")]
+                    if infos and len(infos[-1]["info"]["pv"]) >= 2 and infos[-1]["info"]["pv"][0] == ev["move"]:
+                        reply = infos[-1]["info"]["pv"][1]
+                if reply is None:
+                    if opp is None:
+                        opp = Session(binary, None, cwd=cwd, prefix=prefix)
+                        if not handshake(opp):
+                            break
+                    opp.send(st["start"] + " moves " + " ".join(moves))
+                    opp.send("go")
+                    oev = opp.wait_for("bestmove", 3000)
+                    if oev is None or not MOVE_RE.match(oev.get("move", "")):
+                        break
+                    reply = oev["move"]
+                moves.append(reply)
+            if opp is not None:
+                try:
+                    opp.send("quit")
+                    opp.finish("quit", 1000)
+                except Exception:
+                    pass
         elif do == "go_nowait":
             s.send(st["line"], dict(st.get("extra") or {}, go=True, notime=True))
         elif do == "eof":
